@@ -244,6 +244,28 @@ func genCase(t *rapid.T) Case {
 			if rapid.Bool().Draw(t, "hasret") {
 				a.Ret = drawType(t, structNames, 2)
 			}
+			// overloads: now and then a method takes the name of an earlier one
+			// of the interface, with a different parameter list
+			if j > 0 && rapid.IntRange(0, 4).Draw(t, "overload") == 0 {
+				a.Name = itf.Actions[rapid.IntRange(0, j-1).Draw(t, "overloaded")].Name
+				labels["overloaded-method"] = true
+			}
+			plist := func(a Action) string {
+				var ts []string
+				for _, p := range a.Params {
+					ts = append(ts, p.Type)
+				}
+				return strings.Join(ts, ",")
+			}
+			for again := true; again; {
+				again = false
+				for _, prev := range itf.Actions {
+					if prev.Name == a.Name && plist(prev) == plist(a) {
+						a.Params = append(a.Params, Param{Name: pg.draw(t, "param", []string{"plain"}, labels), Type: "int32"})
+						again = true
+					}
+				}
+			}
 			itf.Actions = append(itf.Actions, a)
 		}
 		nsig := rapid.IntRange(0, 3).Draw(t, "nsignals")
@@ -758,6 +780,21 @@ func checkCase(c Case) error {
 	}
 	if cls := identClass(c, ""); cls != "plain-identifiers" {
 		labels = append(labels, "identifiers="+cls)
+	}
+	overloaded := false
+	for _, itf := range c.Interfaces {
+		seen := map[string]bool{}
+		for _, a := range itf.Actions {
+			if a.Kind == "fn" && seen[a.Name] {
+				overloaded = true
+			}
+			if a.Kind == "fn" {
+				seen[a.Name] = true
+			}
+		}
+	}
+	if overloaded {
+		labels = append(labels, "overloaded-method")
 	}
 	vt.LabelN("value-level-calls", int64(calls))
 	vt.LabelN("pipeline-ms", dur.Milliseconds())
